@@ -383,6 +383,22 @@ theorem dead_if_dropped_fixed :
       = some ["deco ", "sig g(x,c|)", "L1 call y = opset18.Relu(x|)", "L1 return y"] := by
   decide +kernel
 
+/-- C13-DEAD-IF (open, narrowed): `_names_read` is not transitive — an If read only by another If that is dropped is
+still printed, with a result variable (`a`) that nothing reads; the converter refuses such an `if`. -/
+theorem dead_if_transitive_witness :
+    (exportModel ⟨false, false, false, false⟩ 3 ⟨"g", none, [("", 18)],
+        .mk ["x", "c"] ["y"] [] 0
+          [.mk "If" "" "" ["c"] ["a"]
+             [("then_branch", .graph (.mk [] ["q1"] [] 0 [.mk "Neg" "" "" ["x"] ["q1"] []])),
+              ("else_branch", .graph (.mk [] ["q2"] [] 0 [.mk "Abs" "" "" ["x"] ["q2"] []]))],
+           .mk "If" "" "" ["c"] ["unused"]
+             [("then_branch", .graph (.mk [] ["q3"] [] 0 [.mk "Relu" "" "" ["a"] ["q3"] []])),
+              ("else_branch", .graph (.mk [] ["q4"] [] 0 [.mk "Tanh" "" "" ["a"] ["q4"] []]))],
+           .mk "Relu" "" "" ["x"] ["y"] []]⟩).toOption
+      = some ["deco ", "sig g(x,c|)", "L1 if c", "L2 call q1 = opset18.Neg(x|)", "L2 assign a = q1", "L1 else",
+              "L2 call q2 = opset18.Abs(x|)", "L2 assign a = q2", "L1 call y = opset18.Relu(x|)", "L1 return y"] := by
+  decide +kernel
+
 /-- C13-LOCAL-FUNCTIONS (fixed by 41fb399): a call of a model-local function printed above goes through the Python
 function (`helper(x, x)`), not through the Opset object. -/
 theorem local_function_call_fixed :
